@@ -19,7 +19,7 @@ def run_shard(shard, tier, seed):
     n = genhist.nadd_for(t, tier)
     m = 1 if tier == 'quick' else 2
     cores = [genhist.core_removals(t, 2 if tier == 'quick' or len(ref.DFAS[t].alphabet) > 10 else 3), genhist.core_mixed(t, 1, ('set',))]
-    halos = [('removal', 150, 10)] if tier == 'quick' else [('removal', 2500, 14)]
+    halos = [('removal', 70, 10)] if tier == 'quick' else [('removal', 2500, 14)]
     return _histcheck.run(shard, tier, seed, PROPERTY, cores, halos, PROPS, shrink_per_presig=3)
 
 
